@@ -26,7 +26,8 @@ theorem facts_match : FactsC13.internalErrorHasUnwrap = Expected.C13.internalErr
     FactsC13.loopReportsCtxErr = Expected.C13.loopReportsCtxErr ∧
     FactsC13.convForwarderRecovers = Expected.C13.convForwarderRecovers ∧
     FactsC13.childForwarderRecovers = Expected.C13.childForwarderRecovers ∧
-    FactsC13.errorTextMemoised = Expected.C13.errorTextMemoised := by
+    FactsC13.errorTextMemoised = Expected.C13.errorTextMemoised ∧
+    FactsC13.drainedTaskErrorChecked = Expected.C13.drainedTaskErrorChecked := by
   decide
 
 /-- the facts of the step model as regenerated from /repo: every framework goroutine site
@@ -255,6 +256,54 @@ theorem stale_text_with_memoised_error :
     textPath (travel true false [.wrap "leaf", .observe, .wrap "mid", .wrap "outer"] (.leaf 1)) = ["outer", "mid", "leaf"] ∧
     textPath (travel true true [.wrap "step", .rewrap, .wrap "tools"] (.leaf 1)) = ["step"] ∧
     textPath (travel true true [.wrap "leaf", .wrap "mid", .wrap "outer"] (.leaf 1)) = ["outer", "mid", "leaf"] := by decide
+
+/-! ## an interrupt and a node failure meet in the eager loop -/
+
+/-- **failure_beats_interrupt.** Eager mode (Workflow): the loop takes the tasks one at a time
+    in completion order and, at an interrupt point (a task asks for a rerun, a nested graph
+    interrupted, an interrupt-after / interrupt-before node is reached: any `point`), drains the
+    tasks still in flight.  For EVERY completion order: if some task of the run really failed
+    (returned an error that is not an interrupt, or panicked — `panicE`), the run does not report the
+    interrupt but the wrapped error of a task that really failed — so `errors.Is` reaches that
+    task's original error, the error is not an interrupt, and (user error) its path is that task's
+    key: "when a node fails, the run returns an error that names the failing node … a panic … is
+    never swallowed", also when the failure is found while draining. -/
+theorem failure_beats_interrupt (point : Key → Bool) (order : List (Key × Option GoErr))
+    (h : ∃ k e, (k, some e) ∈ order ∧ isInterrupt FactsC13.internalErrorHasUnwrap e = false) :
+    ∃ k e, (k, some e) ∈ order ∧ isInterrupt FactsC13.internalErrorHasUnwrap e = false ∧
+      eagerRun FactsC13.internalErrorHasUnwrap FactsC13.drainedTaskErrorChecked point order
+        = .failed (wrapNode FactsC13.internalErrorHasUnwrap k e) ∧
+      (∀ t, errorsIs FactsC13.internalErrorHasUnwrap (wrapNode FactsC13.internalErrorHasUnwrap k e) t
+        = errorsIs FactsC13.internalErrorHasUnwrap e t) ∧
+      isInterrupt FactsC13.internalErrorHasUnwrap (wrapNode FactsC13.internalErrorHasUnwrap k e) = false ∧
+      (userErr e = true → nodePath (wrapNode FactsC13.internalErrorHasUnwrap k e) = [k]) := by
+  have hf : FactsC13.internalErrorHasUnwrap = true := by decide
+  have hd : FactsC13.drainedTaskErrorChecked = true := by decide
+  rw [hf, hd] at *
+  obtain ⟨k, e, h1, h2, h3⟩ := eagerRun_failure_wins true point order h
+  refine ⟨k, e, h1, h2, h3, fun t => errorsIs_wrapNode k e t, ?_, ?_⟩
+  · rw [isInterrupt_wrapNode]; exact h2
+  · intro hu
+    rw [nodePath_wrapNode k e h2]; simp [nodePath, userErr_no_internal hu]
+
+/-- … and only a failure is reported as one: with no real failure among the tasks the run is
+    interrupted or goes on. -/
+theorem interrupt_only_without_failure (point : Key → Bool) (order : List (Key × Option GoErr))
+    (h : ∀ k e, (k, some e) ∈ order → isInterrupt FactsC13.internalErrorHasUnwrap e = true) :
+    eagerRun FactsC13.internalErrorHasUnwrap FactsC13.drainedTaskErrorChecked point order = .interrupted ∨
+    eagerRun FactsC13.internalErrorHasUnwrap FactsC13.drainedTaskErrorChecked point order = .goesOn :=
+  eagerRun_no_failure _ _ point order h
+
+/-- negation witness (the seeded change C13-52): when the classification of the drained tasks is
+    not looked at, a sibling that fails or panics after the interrupting task was taken is swallowed —
+    the run reports the interrupt; taken BEFORE the interrupting task the same failure is reported. -/
+theorem drained_failure_swallowed_when_unchecked :
+    eagerRun true false (fun k => k == "A") [("A", none), ("B", some (.leaf 1))] = .interrupted ∧
+    eagerRun true false (fun _ => false) [("A", some .interrupt), ("B", some (.panicE 1))] = .interrupted ∧
+    eagerRun true true (fun k => k == "A") [("A", none), ("B", some (.leaf 1))]
+      = .failed (.internal false ["B"] [] (.leaf 1)) ∧
+    eagerRun true false (fun k => k == "A") [("B", some (.leaf 1)), ("A", none)]
+      = .failed (.internal false ["B"] [] (.leaf 1)) := by decide
 
 /-! ## stream-forwarding goroutines (schema/stream.go) -/
 
